@@ -97,6 +97,7 @@ extern "C" void harness() {
     default: p.global.continuousModel.approximationDistance = 1.0e-9; break;
   }
   int stage = __verif_choice(3);
+  std::vector<int> bx = c.cellX(), by = c.cellY(), bw = c.cellWidth(); std::vector<CellOrientation> bo = c.cellOrientation();
   // everything but the internal bookkeeping flags is protected
   __verif_protect(&c, (unsigned long)((char*)&c.isInUse_ - (char*)&c));
   bool threw = false;
@@ -105,6 +106,7 @@ extern "C" void harness() {
   } catch (const std::runtime_error&) { threw = true; }
   __verif_unprotect(&c, (unsigned long)((char*)&c.isInUse_ - (char*)&c));
   VASSERT(threw, "a parameter set rejected by the check is refused with an exception");
+  VASSERT(c.cellX() == bx && c.cellY() == by && c.cellOrientation() == bo && c.cellWidth() == bw, "a rejected parameter set leaves the circuit unmodified");
   __verif_cover("end");
 }
 #endif
